@@ -47,6 +47,8 @@ def gen_labels(rng):
     y = y * int(rng.integers(1, 4)) + int(rng.integers(0, 3))       # non-contiguous label values
   unk = rng.random(n) < rng.choice([0.0, 0.2, 0.5])
   y = np.where(unk, -1, y)
+  if rng.random() < 0.3:
+    y = np.where(unk, rng.choice([-1, -2, -7], size=n), y)          # every negative value means "unknown", not only -1
   return y
 
 
